@@ -207,6 +207,17 @@ func (fc *FuncCtx) boxAny(v Term) Term {
 			fc.declareSpecFun(sf, nil)
 			fc.addAxiom(fmt.Sprintf("(forall ((a %s) (b %s)) (! (= (struct_eq (%s a) (%s b)) (= a b)) :pattern ((struct_eq (%s a) (%s b)))))", v.Sort.SMT(), v.Sort.SMT(), fn, fn, fn, fn))
 			fc.Assumed["struct_eq on values without slices is plain equality (definition of the specification function)"] = true
+		} else if sf != nil && v.Sort.Kind == KData {
+			// comparison with a constructor that has no fields: plain equality as well
+			if d := fc.Sorts.dts[v.Sort.Name]; d != nil {
+				fc.declareSpecFun(sf, nil)
+				for _, ct := range d.Ctors {
+					if len(ct.Fields) == 0 {
+						fc.addAxiom(fmt.Sprintf("(forall ((a %s)) (! (and (= (struct_eq (%s a) (%s %s)) (= a %s)) (= (struct_eq (%s %s) (%s a)) (= a %s))) :pattern ((%s a))))", v.Sort.SMT(), fn, fn, ct.Name, ct.Name, fn, ct.Name, fn, ct.Name, fn))
+					}
+				}
+				fc.Assumed["struct_eq against a constructor without fields is plain equality (definition of the specification function)"] = true
+			}
 		}
 	}
 	return App(anyS, fn, v)
